@@ -230,11 +230,11 @@ func (v *Verifier) scriptOpt(o *Oblig, getValues []string, filtered bool, dropQu
 		fmt.Fprintf(&sb, "(declare-const %s %s)\n", n, consts[n])
 	}
 	if usesStr {
-		if !fns["str.len"] {
-			if d, ok := v.d.funs["str.len"]; ok {
+		if !fns["gstr.len"] {
+			if d, ok := v.d.funs["gstr.len"]; ok {
 				sb.WriteString(d + "\n")
 			} else {
-				sb.WriteString("(declare-fun str.len (Str) Int)\n")
+				sb.WriteString("(declare-fun gstr.len (Str) Int)\n")
 			}
 		}
 		var names []string
@@ -244,7 +244,7 @@ func (v *Verifier) scriptOpt(o *Oblig, getValues []string, filtered bool, dropQu
 				continue
 			}
 			names = append(names, n)
-			fmt.Fprintf(&sb, "(assert (= (str.len %s) %d))\n", n, len(lit))
+			fmt.Fprintf(&sb, "(assert (= (gstr.len %s) %d))\n", n, len(lit))
 		}
 		if len(names) > 1 {
 			fmt.Fprintf(&sb, "(assert (distinct %s))\n", strings.Join(names, " "))
@@ -318,6 +318,14 @@ func runSolver(ctx context.Context, sp solverSpec, file string, ms int) (string,
 	cmd.Stderr = &out
 	cmd.Run()
 	text := out.String()
+	// skip solver warnings preceding the verdict
+	for strings.HasPrefix(text, "WARNING") {
+		i := strings.Index(text, "\n")
+		if i < 0 {
+			break
+		}
+		text = text[i+1:]
+	}
 	first := strings.TrimSpace(strings.SplitN(text, "\n", 2)[0])
 	if strings.Contains(text, "(error ") && first != "unsat" && first != "sat" && first != "unknown" {
 		return "error", text // malformed script (get-value errors after a verdict are harmless)
